@@ -58,6 +58,7 @@ func loadAll(repo string, overlay map[string][]byte) (*Prog, error) {
 	if err != nil {
 		return nil, err
 	}
+	specOverlay = overlay
 	sp, err := loadAllSpecs(repo, filepath.Join(verifRoot(), "spec"), P.ModPath)
 	if err != nil {
 		return nil, err
@@ -89,6 +90,7 @@ func cmdVF(args []string) int {
 	verbose := fs.Bool("v", false, "verbose")
 	dump := fs.String("dump", "", "dump the query of the obligation whose name contains this string")
 	mutant := fs.String("mutant", "", "apply this patch through the overlay")
+	dumpPath := fs.String("dumppath", "", "with -dump: only instances whose path contains this string")
 	fs.Parse(args)
 	var ov map[string][]byte
 	if *mutant != "" {
@@ -219,7 +221,10 @@ func cmdVF(args []string) int {
 				extra := rep.fx.finalizeAxioms()
 				var pick *Obligation
 				for _, o := range rep.Obls {
-					if strings.Contains(o.Name, *dump) {
+					if strings.Contains(o.Name, *dump) && strings.Contains(o.Path, *dumpPath) {
+						if *dumpPath != "" {
+							fmt.Println(";; instance", o.Path, o.Result.Status)
+						}
 						if pick == nil || (pick.Result.Status == "unsat" && o.Result.Status != "unsat") {
 							pick = o
 						}
